@@ -430,9 +430,13 @@ func (*DataProcessor).processAggregationResults
   before sendResultNonBlocking nothing-dropped-below-limit: dp.stream.config.Having != "" && (dp.stream.config.Limit <= 0 || len($having) <= dp.stream.config.Limit) ==> len(finalResults) == len($having)
 
 // ---------------------------------------------------------------- C04: function-expression group keys, output naming
-extern (*Stream).stripJoinAlias
+// an output name loses only its LEADING alias segment (the source alias or a JOIN alias): the rest of a nested path
+// stays whole; a name without a dot, with an empty first segment or with an unknown first segment is kept as it is
+func (*Stream).stripJoinAlias
   props C04 C05 C06 C07 C16 C20
   option pure
+  before SplitN the-name-is-split-once-at-its-first-dot-so-the-rest-of-a-path-stays-whole: $arg0 == name && $arg1 == "." && $arg2 == 2
+  ensures a-name-without-a-dot-is-kept: !strings.Contains(name, ".") ==> result == name
 
 func (*Stream).groupFieldOutputName
   props C04 C05 C06 C07 C16 C20
@@ -834,6 +838,20 @@ func (*DataProcessor).initializeAggregator
   loop 1 step every-compound-item-is-added-once: $compound == prev($compound) + 1
   loop 2 invariant $plain == 1 && $enhanced <= 1
   loop 2 step every-expression-argument-gets-one-evaluator: $calculators == prev($calculators) + 1
+
+// output columns are checked for collisions before a query runs: on the aggregation path no two GROUP BY fields may
+// resolve to one output name and no aggregate alias may repeat an output name; a query that passes has pairwise distinct
+// group output names, each the one groupFieldOutputName gives for its field
+func (*Stream).compileOutputNames
+  props C04 C05 C06 C07 C16 C20
+  option assumed_frame
+  modifies s.groupOutputNames, s.config
+  observe outName := groupFieldOutputName
+  before groupFieldOutputName each-group-field-is-named-by-the-shared-rule: $arg1 == gf
+  atreturn on-the-aggregation-path-an-accepted-query-has-pairwise-distinct-group-output-names: result == nil && old(s.config.Mode) != types.ExecCEP && old(s.config.NeedWindow) ==> forall(a, 0, len(s.groupOutputNames), forall(b, 0, len(s.groupOutputNames), a != b ==> s.groupOutputNames[a] != s.groupOutputNames[b]))
+  loop 2 invariant len(s.groupOutputNames) == len($s) && forall(a, 0, $i, seen[s.groupOutputNames[a]]) && forall(a, 0, $i, forall(b, 0, $i, a != b ==> s.groupOutputNames[a] != s.groupOutputNames[b]))
+  loop 2 step the-name-recorded-for-a-field-is-the-one-the-shared-rule-gives: s.groupOutputNames[$i - 1] == $outName
+  loop 3 invariant forall(a, 0, len(s.groupOutputNames), forall(b, 0, len(s.groupOutputNames), a != b ==> s.groupOutputNames[a] != s.groupOutputNames[b]))
 
 // the fallback of a SELECT expression (no compiled info): the column is always written, and only it; a call goes to the
 // bridge with the IS NULL / LIKE rewriting of the expression's own text and this row; a dotted non-call expression
